@@ -30,8 +30,9 @@ NoDefault            == [k |-> "nodefault"]
 Field(n, t, d, omit, red) == [n |-> n, t |-> t, d |-> d, omit |-> omit, red |-> red]
 Fld(n, t)            == Field(n, t, NoDefault, "", "")
 FldD(n, t, d)        == Field(n, t, d, "", "")
-Tag(n, t)            == [n |-> n, t |-> t, omit |-> ""]
-TagO(n, t, c)        == [n |-> n, t |-> t, omit |-> c]
+Tag(n, t)            == [n |-> n, t |-> t, omit |-> "", red |-> ""]
+TagO(n, t, c)        == [n |-> n, t |-> t, omit |-> c, red |-> ""]
+TagR(n, t, r)        == [n |-> n, t |-> t, omit |-> "", red |-> r]
 Sub(tag, s)          == [tag |-> tag, sub |-> s]
 DStruct(ns, parent, fields, subs, catchall) ==
     [k |-> "struct", ns |-> ns, parent |-> parent, fields |-> fields,
